@@ -2,13 +2,17 @@ package modes
 
 import (
 	"context"
+	"errors"
 	"fmt"
+	"sync/atomic"
 	"net"
 	"strings"
 	"time"
 
 	"github.com/gorilla/websocket"
 	lime "github.com/takenet/lime-go"
+
+	"limeverif/internal/pair"
 )
 
 // ---- C14 on real sockets: peers that do not behave after the refusal -------------------------------
@@ -55,6 +59,9 @@ func c14RealServer(ws bool) (*lime.Server, string, chan error, error) {
 }
 
 func runC14Real(e *Env, c *c14RealCase) error {
+	if c.Family == "established-send-fails" {
+		return runC14SendFails(e, c)
+	}
 	e.Rep.Eval()
 	e.Rep.Count("route=" + c.Family)
 	srv, addr, serveDone, err := c14RealServer(c.Family == "real-ws-leaves")
@@ -173,8 +180,76 @@ func runC14Real(e *Env, c *c14RealCase) error {
 	return nil
 }
 
+// runC14SendFails: the handshake fails at its very last step — the established session envelope cannot be
+// written. That is a failed establishment like any other: no callback, connection released.
+func runC14SendFails(e *Env, c *c14RealCase) error {
+	e.Rep.Eval()
+	e.Rep.Count("route=" + c.Family)
+	ql := pair.NewQueueListener()
+	var cbE, cbF int32
+	cfg := lime.NewServerConfig()
+	cfg.Node = pair.ServerNode
+	cfg.SchemeOpts = []lime.AuthenticationScheme{lime.AuthenticationSchemeGuest}
+	cfg.Authenticate = func(context.Context, lime.Identity, lime.Authentication) (*lime.AuthenticationResult, error) {
+		return lime.MemberAuthenticationResult(), nil
+	}
+	cfg.Register = func(_ context.Context, n lime.Node, _ *lime.ServerChannel) (lime.Node, error) { return n, nil }
+	cfg.EncryptOpts = []lime.SessionEncryption{lime.SessionEncryptionNone}
+	cfg.ChannelBufferSize = 2
+	cfg.Established = func(string, *lime.ServerChannel) { atomic.AddInt32(&cbE, 1) }
+	cfg.Finished = func(string) { atomic.AddInt32(&cbF, 1) }
+	srv := lime.NewServer(cfg, &lime.EnvelopeMux{}, lime.NewBoundListener(ql, ql.Addr()))
+	serveDone := make(chan error, 1)
+	go func() { serveDone <- srv.ListenAndServe() }()
+	ct, st := pair.Pipe(nil)
+	wt := &pair.WrapT{Transport: st}
+	wt.OnSend = func(env lime.VerifEnvelope) error {
+		if ses, ok := env.(*lime.Session); ok && ses.State == lime.SessionStateEstablished {
+			return errors.New("write: broken pipe (scripted)")
+		}
+		return nil
+	}
+	ql.Offer(wt)
+	cc := lime.NewClientChannel(ct, 2)
+	ctx, cancel := context.WithTimeout(context.Background(), 4*time.Second)
+	ses, err := cc.EstablishSession(ctx, lime.NoneCompressionSelector, lime.NoneEncryptionSelector,
+		lime.Identity{Name: guestUUID, Domain: "verif.local"}, lime.GuestAuthenticator, "i")
+	cancel()
+	problems := []string{}
+	if err == nil && ses != nil && ses.State == lime.SessionStateEstablished {
+		problems = append(problems, "harness: the client was established although the established envelope could not be written")
+	}
+	if err != nil && errors.Is(err, context.DeadlineExceeded) {
+		problems = append(problems, "the client whose handshake failed at the last step (the established envelope could not be written) is still waiting on an open connection 4 s later")
+	}
+	time.Sleep(100 * time.Millisecond)
+	if n, m := atomic.LoadInt32(&cbE), atomic.LoadInt32(&cbF); n != 0 || m != 0 {
+		problems = append(problems, fmt.Sprintf("callbacks invoked for a connection that never established: established=%d finished=%d", n, m))
+	}
+	go cc.Close()
+	_ = srv.Close()
+	select {
+	case <-serveDone:
+	case <-time.After(10 * time.Second):
+	}
+	e.Rep.Nontrivial(c.Family)
+	for _, p := range problems {
+		key := "c14-not-closed"
+		if strings.Contains(p, "callbacks") {
+			key = "c14-callbacks"
+		}
+		if strings.HasPrefix(p, "harness:") {
+			e.Rep.Note(p)
+			continue
+		}
+		e.Rep.Violate("impl", key, fmt.Sprintf("[%s] %s", c.Family, p), c)
+	}
+	return nil
+}
+
 func c14RealCases() []*c14RealCase {
 	return []*c14RealCase{
+		{Family: "established-send-fails", When: "last-step"},
 		{Family: "real-tcp-chatty", When: "before-first"}, {Family: "real-tcp-chatty", When: "refused"},
 		{Family: "real-ws-leaves", When: "before-first"}, {Family: "real-ws-leaves", When: "after-new"},
 	}
